@@ -108,7 +108,14 @@ pub fn vtid() -> Option<usize> {
 }
 
 /// Parks the calling virtual thread at a scheduling point; returns the scheduler's choice.
+/// Set when the process is on its way out (fault, limit, deadlock report): `exit` runs the
+/// calling thread's TLS destructors, which reach the hooks again; nobody schedules any more.
+pub static EXITING: std::sync::atomic::AtomicBool = std::sync::atomic::AtomicBool::new(false);
+
 pub fn yield_point(me: usize, p: Pending) -> u64 {
+    if EXITING.load(std::sync::atomic::Ordering::SeqCst) {
+        return 0;
+    }
     let mut g = WORLD.lock().unwrap_or_else(|e| e.into_inner());
     {
         let w = g.as_mut().unwrap();
